@@ -15,7 +15,8 @@ RULE = ('all event sequences up to a length bound over 16 prior events, then 7 p
 F = CFGF
 SCHEMA = [Opt('int', b'i', 0, 7), Opt('str', b's', 0, b'd'), Opt('intl', b'il', 0, b'{1}'),
           Opt('sec', b'sec', 0, None, [Opt('int', b'a', 0, 1)]), Opt('func', b'include', func='include'),
-          Opt('int', b'v', 0, 0, cbs=('valid:0',)), Opt('sec', b'mm', F['MULTI'], None, [Opt('int', b'a', 0, 1)])]
+          Opt('int', b'v', 0, 0, cbs=('valid:0',)), Opt('sec', b'mm', F['MULTI'], None, [Opt('int', b'a', 0, 1)]),
+          Opt('int', b'old', F['DEPRECATED'], 1), Opt('intl', b'gone', F['DEPRECATED'] | F['DROP'], b'{1}')]
 FILES = ['file %s file %s' % (hx(b'bad.conf'), hx(b'i = 1\nbogus = = 2\n')), 'file %s file %s' % (hx(b'open.conf'), hx(b's = "abc\n')),
          'file %s file %s' % (hx(b'self.conf'), hx(b'include("self.conf")\n')), 'file %s file %s' % (hx(b'good.conf'), hx(b'i = 42\n')),
          'file %s file %s' % (hx(b'opensec.conf'), hx(b'sec { a = 5\n'))]
@@ -24,6 +25,7 @@ EVENTS = {
     'ok': ['parse_buf 0 ' + hx(b'i = 3\ns = "x"\n')],
     'ok-long': ['parse_buf 0 ' + hx(b's = "' + b'L' * 100 + b'"\n# ' + b'c' * 80 + b'\n')],
     'ok-include': ['parse_buf 0 ' + hx(b'include("good.conf")\n')],
+    'ok-deprecated': ['parse_buf 0 ' + hx(b'gone = {3}\nold = 2\n# the same option is assigned again by the first probe that follows\n')],
     'abort-dq': ['parse_buf 0 ' + hx(b's = "abc')],
     'abort-sq': ['parse_buf 0 ' + hx(b"s = 'abc")],
     'abort-comment': ['parse_buf 0 ' + hx(b'i = 2 /* abc')],
@@ -48,13 +50,16 @@ EVENTS = {
 BARE = [Opt('sec', b'mm', F['MULTI'], None, [Opt('int', b'a', 0, 1)]), Opt('str', b's', 0, b'd')]
 PROBES = [  # first of all, in a context whose creation converts no number: a section INDEX inside an option path is
           # converted before any value (whatever errno the history left behind is still there)
-          'init 4 1 0', 'parse_buf 4 ' + hx(b'mm { }\nmm { }\n"mm=1|a" = 7\n"mm=0x0|a" = 8\n'), 'dump 4', 'init 2 0 0',
+          'init 4 1 0', 'parse_buf 4 ' + hx(b'mm { }\nmm { }\n"mm=1|a" = 7\n"mm=0x0|a" = 8\n'), 'dump 4',
+          # deprecated options assigned again (before any cfg_init of a schema with a deprecated list default handles one)
+          'parse_buf 0 ' + hx(b'\nold = 5\n'), 'parse_buf 0 ' + hx(b'gone = {1, 2}\n\ni = 2'), 'init 2 0 0',
           'parse_buf 2 ' + hx(b'i = 3\n'), 'dump 2', 'parse_buf 2 ' + hx(b's = "q" il += {2}\nsec { a = 4 }\n'), 'dump 2',
           'lex ' + hx(b'a "b c" \'d\' /* e */ # f\n{ }'), 'parse_buf 2 ' + hx(b'include("good.conf")\n'), 'dump 2',
           'parse_buf 2 ' + hx(b's = "' + b'z' * 40 + b'"\n'), 'dump 2', 'setmulti 2 69 35', 'dump 2',
           # the contexts with a history: what a parse reports (code, file, line, message) does not depend on it
           'parse_buf 0 ' + hx(b'i = 3\n\nbogus = 1\n'), 'parse_buf 1 ' + hx(b'\ns = "open\n'), 'parse_buf 0 ' + hx(b'i = 4\n'),
           'parse_buf 0 ' + hx(b'include("bad.conf")\n'),
+          'parse_buf 2 ' + hx(b'# c\nold = 6\ngone += 4\n'), 'dump 2',
           'init 3 0 0', 'parse_buf 3 ' + hx(b'mm { a = 2 }\nmm { }\n"mm=1|a" = 7\n"mm=0x0|a" = 8\n'), 'dump 3']
 
 
